@@ -32,7 +32,7 @@ def ctfe_stage(rep):
     env = dict(os.environ, CARGO_NET_OFFLINE="true", CARGO_TARGET_DIR=os.path.join(ROOT, "target"))
     p = subprocess.run(["cargo", "build", "--release", "--offline", "-p", "ctfe", "--message-format=json"], cwd=os.path.join(ROOT, "harness"), env=env, stdout=subprocess.PIPE, stderr=subprocess.PIPE, text=True)
     errs = []
-    for line in p.stdout.splitlines():
+    for line in p.stdout.split("\n"):
         if not line.startswith("{"):
             continue
         try:
@@ -106,7 +106,7 @@ def run(tier, seed, drv):
     per_engine = {}
     with concurrent.futures.ThreadPoolExecutor(14) as ex:
         for i, r, rc, err, secs in ex.map(lambda i: miri_engine(i, deep), range(n_eng)):
-            name = next((l.split("C01-MIRI-ENGINE-START ", 1)[1] for l in err.splitlines() if "C01-MIRI-ENGINE-START" in l), f"engine #{i}")
+            name = next((l.split("C01-MIRI-ENGINE-START ", 1)[1] for l in err.split("\n") if "C01-MIRI-ENGINE-START" in l), f"engine #{i}")
             per_engine[name] = {"seconds": round(secs, 1), "exit": rc}
             ub = "Undefined Behavior" in err or "error: unsupported operation" in err or "error: memory leaked" in err
             if rc == "timeout":
@@ -156,7 +156,7 @@ def run(tier, seed, drv):
                 return si, p.returncode, p.stdout, p.stderr, time.time() - t
             with concurrent.futures.ThreadPoolExecutor(8) as ex:
                 for si, rc, out, err, secs in ex.map(one, range(shards)):
-                    n = sum(1 for l in out.splitlines() if l.startswith("{"))
+                    n = sum(1 for l in out.split("\n") if l.startswith("{"))
                     gen_miri[f"{prefix}_{si}"] = {"programs": n, "seconds": round(secs, 1), "exit": rc}
                     miri_trans += n
                     if "Undefined Behavior" in err:
